@@ -276,6 +276,7 @@ func TestVerif_C31(t *testing.T) {
 		status := statuses[x.Choose(len(statuses), "status")]
 		initialOK := x.Bool("initial-allowed")                         // false first: rejected
 		rejectBy := x.Pick("rejected-by", "host", "query", "userinfo") // which part of a rejected URL is objectionable
+		echo := x.Bool("validator-message-quotes-the-url-it-was-given")
 		chain := x.Choose(eff+3, "chain-length")
 		hopOK := make([]bool, chain+1)
 		hopOK[0] = initialOK
@@ -316,7 +317,7 @@ func TestVerif_C31(t *testing.T) {
 			}
 			return vfC31Resp{body: vfC31Body, cl: -2}
 		}
-		validator := vfC31Validator(false, false)
+		validator := vfC31Validator(false, echo)
 		cfg := &ExternalLocationConfig{URLValidator: validator, MaxRetries: 1, RetryDelay: time.Nanosecond,
 			HTTPClient: &http.Client{Transport: o}, MaxRedirects: maxCfg}
 		pb, pm := MakeExternalLocationBatch(schema, urls[0], sha)
@@ -345,7 +346,11 @@ func TestVerif_C31(t *testing.T) {
 		if len(hops) > 2 {
 			x.Failf("C31:redirects:too-many-attempts", "MaxRetries=1 but %d attempts; requests: %v", len(hops), o.seen)
 		}
-		vfC31Leaks(x, "redirects", err)
+		site := "redirects"
+		if echo {
+			site = "redirects:validator-quotes-url"
+		}
+		vfC31Leaks(x, site, err)
 		vfC31CheckResult(x, "redirects", rb, err)
 		x.Outcome("max=%d by=%s chain=%d attempts=%d maxhops=%d %s", maxCfg, rejectBy, chain, len(hops), maxHops, vfC31ErrClass(err))
 	})
